@@ -495,6 +495,8 @@ class Exec:
                 print("DEBUG path-end", kind, payload if isinstance(payload, (str, int, type(None))) else type(payload).__name__, pathid(s_), "dead" if s_.dead else "")
         nret = 0
         for kind, s, payload in outs:
+            if kind in ("next", "return") and any(z3.is_false(p) for p in s.pc):
+                continue  # this path ended at a definite implicit exception that the contract allows (its raising twin is among the outcomes)
             if kind in ("next", "return"):
                 nret += 1
                 result = payload if kind == "return" else None
@@ -508,6 +510,8 @@ class Exec:
                     self.prove(s, f"{short(vname)}/returns/result-has-the-declared-type", z3.BoolVal(False), "ensures", node.lineno)
                 elif isinstance(rs, (_Scalar, NoneT)):
                     self.prove(s, f"{short(vname)}/returns/result-has-the-declared-type", z3.BoolVal(True), "ensures", node.lineno)
+                if c.options.get("no_normal_return"):
+                    self.prove(s, f"{short(vname)}/returns/never-returns-normally", z3.BoolVal(False), "ensures", node.lineno)
                 for ename, fn in c.ensures:
                     goal = self._spec_bool(fn(Eo), f"ensures {ename}")
                     self.prove(s, f"{short(vname)}/ensures/{ename}", goal, "ensures", node.lineno)
@@ -533,6 +537,8 @@ class Exec:
             # every path ended in a declared exception or was pruned as infeasible (e.g. by a callee postcondition that contradicts the actual arguments):
             # the postconditions would hold vacuously.  Functions that really never return say so (options no_normal_return).
             raise VCError(f"{qual}: no normally terminating path (contradictory contract, or a callee contract that does not fit its call site?)")
+        if nret == 0 and c.options.get("no_normal_return"):
+            self.prove(st, f"{short(vname)}/returns/never-returns-normally", z3.BoolVal(True), "ensures", node.lineno)
         self.npaths += len(outs)
         for o in self.obls[n0:]:
             o.extra["vname"] = vname
@@ -720,6 +726,10 @@ class Exec:
             libmodels.list_extend(self, st, cur, v)
             return [("next", st, None)]
         r = self.binop(stmt.op, cur, v, st, stmt)
+        if isinstance(cur, PyList) and isinstance(r, PyList) and r is not cur and r.np == cur.np and (cur.np or isinstance(stmt.op, ast.Mult)):
+            # list *= n and every augmented assignment on a numpy array update the object in place: all aliases see the new contents
+            cur.v = r.v
+            r = cur
         self.assign(stmt.target, r, st, mod)
         return [("next", st, None)]
 
@@ -1118,6 +1128,9 @@ class Exec:
                         key = f"{_src(node.func.value)}.{attr}"
                         if isinstance(spec.shapes.get(key), Same):
                             continue
+                        if isinstance(shape, Same) and key not in spec.shapes:
+                            done.discard((id(o), attr))
+                            continue  # a write set given by path only (writes(...)) belongs to a body-verified variant: call sites use the caller views' frames
                         o.fields[attr] = fresh(spec.shapes.get(key) or shape, attr, wf, env=SpecEnvRaw({"self": recv}))
         st.pc.extend(wf)
 
@@ -2106,6 +2119,8 @@ class Exec:
             return f.fn(*args)
         if isinstance(f, ClassRef):
             return libmodels.construct(self, st, f, args, kwargs, node, mod)
+        if f is None and st.pc and z3.is_false(st.pc[-1]):
+            return None  # the method of None: the attribute access already ended this path (AttributeError); nothing is called
         raise Unsupported(f"call of {type(f).__name__} at line {getattr(node, 'lineno', '?')}")
 
     def pure_call(self, f, args, st, node=None):
@@ -2221,8 +2236,9 @@ class Exec:
         variants = [v for k, v in self.reg.contracts.items() if v.qual == qual]
         if not variants:
             return None
-        env = self.bind_args(fnode, args, kwargs, st, fmod, skip_missing=True)
-        for v in variants:
+        env = dict(self.bind_args(fnode, args, kwargs, st, fmod, skip_missing=True))
+        env["__verifying__"] = self.vname or ""  # a view may be meant for the verification of particular callers only
+        for v in sorted(variants, key=lambda v: -getattr(v, "priority", 0)):
             if v.applies is None or v.applies(env):
                 return v
         raise VCError(f"no contract variant of {qual} applies at this call site")
